@@ -508,10 +508,14 @@ package meta
 // A query is narrowed to ONE hash shard only when the condition pins EVERY tag of the shard key
 // (otherwise it is broadcast): pruning may only remove shards that cannot contain a match.
 //@ func ShardGroupInfo.TargetShards
-//@   requires wfe(condition)
+//@   requires wfe(condition) && mst != nil
 //@   call (*ShardGroupInfo).ShardFor
 //@     requires ski != nil && i >= len(ski.ShardKey)
 //@     requires ctc(condition)
+// Each disjunct of the condition (one tag group) selects its shard from ITS OWN key "measurement,k=v,...": when the
+// key of a group is built the buffer holds exactly the measurement name - nothing of the previous disjunct.
+//@   call sort.Sort
+//@     requires [key_built_per_disjunct] len(shardKeyAndValue) == len(mst.Name)
 // Condition-tree extraction. Abstraction: a nil/empty result means "unconstrained => all shards".
 // ctc(e) ("e constrains the shard choice") is the recursive predicate the property implies: a disjunction
 // constrains only if BOTH sides do (a row matching the unconstrained side may live in any shard), a
